@@ -141,7 +141,11 @@ def run_case(case):
                 x = np.asarray(e3.model.project(tuple(m.proj)).values, dtype=float).flatten()
                 r = (m.Qd @ x - y) / nz
                 rec += 0.5 * float(r @ r)
-            if rep is not None and abs(rep - rec) > 1e-6 * abs(rec) + floor / min(1.0, min(nz for _, _, nz, _ in with_tiny)) ** 2:
+            # float64 resolves log-probabilities only to ~2e-16 x |theta|: with noise ~1e-5 one step already moves the
+            # potentials to ~1e9 and the tables of two cliques agree on a shared attribute only to ~1e-6 (same
+            # magnitude-aware tolerance as C08)
+            mag = max(float(np.max(np.abs(np.where(np.isfinite(e3.model.potentials[c].values), e3.model.potentials[c].values, 0.0)))) for c in e3.model.cliques)
+            if rep is not None and abs(rep - rec) > (1e-6 + 1e-14 * mag) * abs(rec) + floor / min(1.0, min(nz for _, _, nz, _ in with_tiny)) ** 2:
                 out.fail('mismatch:reported_loss', 'mirror_descent(iters=%d) reports loss %r, the returned model has loss %r' % (it, rep, rec)); break
         if case['point_seed'] % 4 == 0: out.classes.append('tiny_noise_md')
     # (d) smoothness constant
